@@ -25,7 +25,7 @@ ASSUMPTIONS = {
 }
 
 
-DTYPE_TWIN_P = 0.2
+DTYPE_TWIN_P = 0.3
 LAYOUT_TWIN_P = 0.15
 
 
@@ -48,23 +48,53 @@ def _layout_twin(kwargs, kind="F"):
 INT_TWIN_PROPS = {"C01", "C02", "C09", "C10", "C12", "C14", "C18", "C19"}
 
 
-def _int_twin(c, kwargs):
-    """the same call with every float array of a parameter declared real[...] replaced by its rounding, as int64"""
+def _int_twin(c, kwargs, rng=None):
+    """the same call with every float array of a parameter declared real[...] replaced by its rounding, as int64; with `rng`
+    also *scalar-type twins*: each scalar / tuple parameter declared real is, with probability 1/2 and independently, rounded and
+    handed over as a Python int (or numpy int64) -- `centre=(0, 0)` instead of `(0.0, 0.0)` --, and each non-negative scalar /
+    tuple parameter declared int is handed over as a numpy UNSIGNED scalar (a row of an unsigned index array); same values,
+    another type, so every clause must hold unchanged"""
     import numpy as np
     # only where the arrays are data a user hands in (images, grids, coordinates: C01/C02/C09/C10/C12/C14/C18/C19), never
     # for intermediates that are float by construction (Cholesky factors, curvature matrices) nor for in-place output buffers
     if not (set(c.props) & INT_TWIN_PROPS) or getattr(c, "no_int_twin", False):
         return None
     tw, changed = {}, False
+    # one kind of twin per call (several at once mostly produce inputs outside the precondition): integer arrays only /
+    # Python or numpy ints for real scalars (never turning a non-zero scale into 0) / unsigned numpy scalars for int scalars
+    tys = [str(t).replace(" ", "") for k, t in (c.types or {}).items() if k not in (c.modifies or [])]
+    kinds = ([k for k, ok in (("arrays", any(t.startswith("real[") for t in tys)),
+                              ("real-scalars", any(t == "real" or (t.startswith("(") and "real" in t) for t in tys)),
+                              ("unsigned", bool(getattr(c, "unsigned_twin", ())))) if ok] or ["arrays"])
+    kind = None if rng is None else rng.choice(kinds)
+
+    def scal(v, ty, k=None):
+        if kind == "real-scalars" and ty == "real" and isinstance(v, float) and v == v and abs(v) < 1e15 and (round(v) != 0 or v == 0) \
+                and rng.random() < 0.6:
+            return (int(round(v)) if rng.random() < 0.7 else np.int64(round(v))), True
+        # unsigned scalars only for the index-valued DATA parameters a contract names in `unsigned_twin` (pixel coordinates, region
+        # bounds: rows of an unsigned index array); configuration integers (shapes, buffers, sub-sizes) stay Python ints
+        if kind == "unsigned" and k in getattr(c, "unsigned_twin", ()) and ty == "int" and isinstance(v, (int, np.integer)) and not isinstance(v, (bool, np.bool_)) and 0 <= int(v) and rng.random() < 0.6:
+            fits = [t for t in (np.uint8, np.uint16, np.uint32, np.uint64) if int(v) <= np.iinfo(t).max]
+            return rng.choice(fits)(int(v)), True
+        return v, False
+
     for k, v in kwargs.items():
-        ty = str((c.types or {}).get(k, ""))
+        ty = str((c.types or {}).get(k, "")).replace(" ", "")
         if k in (c.modifies or []):
             tw[k] = v.copy() if isinstance(v, np.ndarray) else v
             continue
         if isinstance(v, np.ndarray) and v.dtype.kind == "f" and ty.startswith("real[") and v.size and np.all(np.isfinite(v)) \
-                and float(np.abs(v).max()) < 1e15:
+                and float(np.abs(v).max()) < 1e15 and kind in (None, "arrays"):
             tw[k] = np.rint(v).astype(np.int64)
             changed = True
+        elif rng is not None and ty in ("real", "int"):
+            tw[k], ch = scal(v, ty, k)
+            changed = changed or ch
+        elif rng is not None and ty.startswith("(") and isinstance(v, tuple) and len(v) == len([t for t in ty.strip("()").split(",") if t]):
+            parts = [scal(x, t, k) for x, t in zip(v, [t for t in ty.strip("()").split(",") if t])]
+            tw[k] = tuple(x for x, _ in parts)
+            changed = changed or any(ch for _, ch in parts)
         else:
             tw[k] = v.copy() if isinstance(v, np.ndarray) else v
     return tw if changed else None
@@ -103,6 +133,13 @@ def run_contract_search(key, tier, seed):
     if gen is None:
         out["status"] = "no-generator"
         return out
+    # the library import (several seconds, more under load) is not part of the search budget: without this a loaded machine
+    # spent the whole quick budget of a contract on its first evaluation
+    try:
+        rtc.import_repo()
+        rtc.real_function(c.key)
+    except Exception:
+        pass
     t0 = time.time()
     limit_s = {"quick": 6.0, "large": 150.0}.get(tier, 60.0)
     seen = set()
@@ -129,12 +166,13 @@ def run_contract_search(key, tier, seed):
             # integer-dtype twin: a contract over the reals holds in particular for integer-valued input, whatever its dtype
             # (an accumulator or output buffer that inherits the input dtype truncates silently).  Only a false clause counts;
             # a function that refuses integer arrays with an exception is outside its own domain, not wrong.
-            tw = _int_twin(c, kwargs)
+            tw = _int_twin(c, kwargs, rng)
             if tw is not None:
                 o2 = rtc.run_contract(c, tw)
                 out["int_twins"] = out.get("int_twins", 0) + (o2.status != "pre-false")
-                if o2.status == "fail" and (o2.detail == "clause is false" or str(o2.clause).startswith(("frame:", "fresh:"))):
-                    out["failures"].append({"inputs": rtc.to_jsonable(tw), "clause": o2.clause, "detail": "integer-dtype input: " + str(o2.detail),
+                if o2.status == "fail" and (o2.detail in ("clause is false", "returned instead of raising", "raised although the condition is false")
+                                            or str(o2.clause).startswith(("frame:", "fresh:"))):
+                    out["failures"].append({"inputs": rtc.to_jsonable(tw), "clause": o2.clause, "detail": "integer-dtype / scalar-type twin: " + str(o2.detail),
                                             "observed": o2.observed, "history": []})
                     if len(out["failures"]) >= 5:
                         break
